@@ -619,10 +619,48 @@ def _p_string_position(tree, ln, col, det, ctxd):
 
 
 def _p_huge_power(tree, ln, col, det, ctxd):
+    """A `**` / `<<` whose right operand is not a small integer literal (a huge literal, or a name / expression that may
+    be bound to one), and — confirming that this is what hangs — the same module with those operators replaced by 0
+    is checked within the limit."""
+    class Patch(ast.NodeTransformer):
+        hits = 0
+
+        def visit_BinOp(self, n):
+            self.generic_visit(n)
+            if isinstance(n.op, (ast.Pow, ast.LShift)):
+                r = _int_const(n.right)
+                if r is None or abs(r) >= 10 ** 4:
+                    Patch.hits += 1
+                    return ast.copy_location(ast.Constant(value=0), n)
+            return n
+
+        def visit_AugAssign(self, n):
+            self.generic_visit(n)
+            if isinstance(n.op, (ast.Pow, ast.LShift)):
+                Patch.hits += 1
+                return ast.copy_location(ast.Expr(value=ast.Constant(value=0)), n)
+            return n
+
+    Patch.hits = 0
+    patched = ast.fix_missing_locations(Patch().visit(ast.parse(ast.unparse(tree))))
+    if not Patch.hits:
+        return False
+    src2 = ast.unparse(patched) + "\n"
+    # module-level constants such as K = 10 ** 30 are patched as well, so the module still imports
+    if importable(src2) is not None:
+        return True
+    try:
+        r = run_check(src2, ctxd["settings"], cpu=CPU_LIMIT)
+    except BaseException:
+        return True
+    return not any(k == "timeout" for k, _, _ in r["problems"])
+
+
+def _p_typevar_constraints(tree, ln, col, det, ctxd):
     for n in ast.walk(tree):
-        if isinstance(n, ast.BinOp) and isinstance(n.op, (ast.Pow, ast.LShift)):
-            r = _int_const(n.right)
-            if r is not None and abs(r) >= 10 ** 4:
+        if isinstance(n, ast.Call) and len(n.args) >= 3:
+            f = n.func
+            if (f.id if isinstance(f, ast.Name) else f.attr if isinstance(f, ast.Attribute) else None) == "TypeVar":
                 return True
     return False
 
@@ -656,6 +694,7 @@ KNOWN_CLASSES = [
                                   for n in _under(t, ln, col))),
     ("suggestedTypeOfMetaclass", ("internal_error",), lambda s, d: s == ("TypeError", "suggested_type.py::get_shared_type"),
      lambda t, ln, col, d, c: any(isinstance(n, ast.Name) and n.id == "type" and isinstance(n.ctx, ast.Load) for n in ast.walk(t))),
+    ("constrainedTypeVarBoolability", ("internal_error",), lambda s, d: s == ("AssertionError", "boolability.py::_get_boolability_no_mvv"), _p_typevar_constraints),
     ("stringAnnotationPosition", ("bad-col", "bad-line"), lambda s, d: True, _p_string_position),
     ("hugeConstantPower", ("timeout",), lambda s, d: True, _p_huge_power),
 ]
@@ -668,7 +707,7 @@ def classify(src, kind, sig, det, settings):
     except SyntaxError:
         return None, True, {}
     ln, col = det.get("lineno"), det.get("col")
-    ctxd = {"implicit_any": bool(settings.get(ErrorCode.implicit_any, False))}
+    ctxd = {"implicit_any": bool(settings.get(ErrorCode.implicit_any, False)), "settings": settings}
     for name, kinds, sigtest, pred in KNOWN_CLASSES:
         if kind not in kinds:
             continue
